@@ -5,7 +5,7 @@ package main
 // again with encoding/json, the expected field set / order / quoting are
 // computed from the property text, and the observed line is parsed back with
 // the known option set.  Where the text leaves a choice (error position under
-// FieldsOrder, a name listed twice in FieldsOrder, the byte 0x7f, HTML
+// FieldsOrder, a name listed twice in FieldsOrder, HTML
 // escaping inside compact JSON) every choice is accepted.  The text of a part
 // is not fixed by the property; only "the PartsOrder entries minus
 // PartsExclude, in order, before the fields" is checked (partsSection).
@@ -44,11 +44,9 @@ func inList(k string, l []string) bool {
 func textSpecial(s string) (must bool, may bool) {
 	for i := 0; i < len(s); i++ {
 		c := s[i]
-		if c == ' ' || c == '"' || c == '\\' || c < 0x20 || c >= 0x80 {
+		// control bytes are the ASCII control characters 0x00-0x1f and DEL (0x7f)
+		if c == ' ' || c == '"' || c == '\\' || c < 0x20 || c >= 0x7f {
 			must = true
-		}
-		if c == 0x7f { // a control byte or not: either reading
-			may = true
 		}
 	}
 	return
